@@ -569,7 +569,9 @@ func TestVerif_C07_model(t *testing.T) {
 		Rule: "synctest bubble per case; PRNG history of 20-60 operations (add / query / advance aimed at validity +-1ns of some addition / wait for a sweep / evict by querying more keys than cache entries / clean restart) over 1-60 keys (1 in 40 cases: 257-600 keys against the default 256-entry cache; some keys extend others), 1-30 providers incl. the node itself, validity 10m-48h, cleanup interval 0 / validity/5 .. 1.3x, cache of 1-5 entries or default; optional pre-filed malformed + valid entries; 1 in 8 cases inject datastore write failures (failed add = provider may or may not be served); lock-step model key->provider->vt of last acknowledged add; after every acknowledged add a second manager is opened on a copy of the datastore replayed from the vjds journal and queried; every restart and the end check the Close fence; non-trivial = an expired provider was withheld, an answer came from the cache and an answer was re-loaded from the datastore for a key cached earlier; distinct by hash of the answer sequence",
 		Clauses: []string{"valid-served", "expired-not-served", "no-duplicates", "no-stranger", "ack-durable", "reopen-after-write", "delete-only-expired", "closed-reports-closed", "closed-no-access"}},
 		func(c *vh.Case) {
+			t0 := time.Now()
 			c.Bubble(t, 24*365*30*time.Hour, "hang", func(t *testing.T) { vC07ModelBody(c) })
+			c.Set("PROBE_wall_us", time.Since(t0).Microseconds())
 		})
 }
 
